@@ -1,5 +1,5 @@
-(** C18 — remove purges every link; "no dangling link, live entry point" is an invariant of
-    every insert / re-insert / remove history (whatever the heaps, the order and the metric do). *)
+(** C18 — hnsw_remove purges every link; "no dangling link, live entry point" is an invariant of
+    every insert / re-insert / hnsw_remove history (whatever the heaps, the order and the metric do). *)
 From Coq Require Import ZArith List Bool Lia Permutation Sorted.
 From GV Require Import Vec.Hnsw Vec.ProofsBase Vec.ProofsSearch.
 Import ListNotations.
@@ -87,7 +87,7 @@ Section MapFacts.
     apply nth_In. exact Hl.
   Qed.
 
-  (** ---- remove ---- *)
+  (** ---- hnsw_remove ---- *)
   Lemma keys_del_purge : forall (m : nodemap) id x,
     In x (keys (map (fun kv : Z * node => (fst kv, purge id (snd kv))) (del m id))) <-> In x (keys m) /\ x <> id.
   Proof.
@@ -121,10 +121,10 @@ Section MapFacts.
     inversion H; subst. apply has_keys. exact E.
   Qed.
 
-  Lemma remove_purges_raw : forall (s s' : state V) id pick, remove s id pick = (s', true) ->
+  Lemma remove_purges_raw : forall (s s' : state V) id pick, hnsw_remove s id pick = (s', true) ->
     has (nodes s') id = false /\ ~ mentioned (nodes s') id /\ entry s' <> Some id.
   Proof.
-    intros s s' id pick H. unfold remove in H. destruct (has (nodes s) id); [|inversion H].
+    intros s s' id pick H. unfold hnsw_remove in H. destruct (has (nodes s) id); [|inversion H].
     inversion H; subst; clear H. cbn [nodes entry]. split; [|split].
     - destruct (has _ id) eqn:E; [|reflexivity]. apply has_keys, keys_del_purge in E. tauto.
     - intro Hm. apply mentioned_del_purge in Hm. tauto.
@@ -133,9 +133,9 @@ Section MapFacts.
       + apply Z.eqb_neq in E. congruence.
   Qed.
 
-  Lemma remove_closed_raw : forall (s : state V) id pick, links_closed s -> links_closed (fst (remove s id pick)).
+  Lemma remove_closed_raw : forall (s : state V) id pick, links_closed s -> links_closed (fst (hnsw_remove s id pick)).
   Proof.
-    intros s id pick [Hc He]. unfold remove. destruct (has (nodes s) id) eqn:Eh; [|split; assumption].
+    intros s id pick [Hc He]. unfold hnsw_remove. destruct (has (nodes s) id) eqn:Eh; [|split; assumption].
     cbn [fst nodes entry]. split.
     - intros x Hx. apply mentioned_del_purge in Hx. destruct Hx as [Hx Hne].
       apply has_keys, keys_del_purge. split; [apply has_keys, Hc; exact Hx|exact Hne].
@@ -178,7 +178,7 @@ Section Insert.
   Proof.
     intros m. induction cands as [|c t IH]; intros mm sel Hs p Hp; cbn [Hnsw.select_loop] in Hp; [auto|].
     destruct (mm <=? zlen sel); [auto|].
-    destruct (find m (fst c)) as [nd|] eqn:E; [|eapply IH; eassumption].
+    destruct (lookup m (fst c)) as [nd|] eqn:E; [|eapply IH; eassumption].
     destruct (existsb _ sel); [eapply IH; eassumption|].
     eapply IH; [|exact Hp]. intros p0 H0. apply in_app_or in H0. destruct H0 as [H0|[<-|[]]]; [auto|].
     cbn [fst]. apply has_keys. unfold has. rewrite E. reflexivity.
@@ -194,7 +194,7 @@ Section Insert.
     closed_map (fst (add_back id lc mm (m, need) nid)) /\ keys (fst (add_back id lc mm (m, need) nid)) = keys m.
   Proof.
     intros id lc mm m need nid Hc Hid. unfold Hnsw.add_back. cbn [fst snd].
-    destruct (find m nid) as [nd|] eqn:E; [|split; [exact Hc|reflexivity]].
+    destruct (lookup m nid) as [nd|] eqn:E; [|split; [exact Hc|reflexivity]].
     destruct (Nat.ltb lc (length (snd nd))) eqn:El; [|split; [exact Hc|reflexivity]].
     cbn [fst]. split; [|apply keys_upd].
     unfold set_layer.
@@ -220,7 +220,7 @@ Section Insert.
     In e (prune_entry m lc nid) -> forall x, In x (map fst (snd e)) -> In x (keys m).
   Proof.
     intros m lc nid e Hc He x Hx. unfold Hnsw.prune_entry in He.
-    destruct (find m nid) as [nd|] eqn:E; [|destruct He].
+    destruct (lookup m nid) as [nd|] eqn:E; [|destruct He].
     destruct (Nat.ltb lc (length (snd nd))) eqn:El; [|destruct He].
     destruct He as [<-|[]]. cbn [snd] in Hx. rewrite map_map in Hx. cbn [fst] in Hx. rewrite map_id in Hx.
     apply Hc. eapply nth_mentioned; [apply find_In; exact E| |exact Hx].
@@ -239,7 +239,7 @@ Section Insert.
     closed_map (apply_prune lc mm m e) /\ keys (apply_prune lc mm m e) = keys m.
   Proof.
     intros lc mm m e Hc He. unfold Hnsw.apply_prune.
-    destruct (find m (fst e)) as [nd|] eqn:E; [|split; [exact Hc|reflexivity]].
+    destruct (lookup m (fst e)) as [nd|] eqn:E; [|split; [exact Hc|reflexivity]].
     destruct (Nat.ltb lc (length (snd nd))); [|split; [exact Hc|reflexivity]].
     split; [|apply keys_upd]. unfold set_layer.
     apply (closed_upd_layer V m (fst e) lc (fun n => prune_list D leb (nth lc (snd n) []) (snd e) mm)); [exact Hc|].
